@@ -82,6 +82,34 @@ class DispatchCase(Case):
                 n = base_t.size
                 exp = int.from_bytes(data[:n], "little" if endian == "<" else "big", signed=bool(getattr(base_t, "signed", False)) or base_t.__name__.startswith("int"))
                 ctx.prove(f"{tname_}/standard-decoding", want is not None and _as_int(want) == exp, info=f"{want} expected {exp}")
+        # the byte order that counts is the one current at the call: the same buffer parsed again after cs.endian changed
+        # is decoded in the new byte order (buffers, call forms and repeated use included)
+        other = ">" if endian == "<" else "<"
+        for tname in ("uint16", "int24", "uint48", "int128", "E16s", "E24", "wchar", "S"):
+            T = cs.resolve(tname)
+            n = T.size
+            data = long_data[5 : 5 + n]
+            first = {}
+            for form, fn in (("T(x)", lambda x: it.call(type(T).__call__, [T, x])), ("T.reads(x)", lambda x: it.call(MetaType.reads, [T, x])),
+                             ("T.read(x)", lambda x: it.call(MetaType.read, [T, x]))):
+                try:
+                    first[form] = _show(fn(data))[0]
+                except PyRaise as e:
+                    first[form] = f"raises {e.cls.__name__}"
+            cs.endian = other
+            try:
+                for form, fn in (("T(x)", lambda x: it.call(type(T).__call__, [T, x])), ("T.reads(x)", lambda x: it.call(MetaType.reads, [T, x])),
+                                 ("T.read(x)", lambda x: it.call(MetaType.read, [T, x]))):
+                    try:
+                        got = _show(fn(data))[0]
+                    except PyRaise as e:
+                        got = f"raises {e.cls.__name__}"
+                    fresh = cstruct(endian=other)
+                    fresh.load("struct S { uint16 a; uint8 b; }; enum E16s : int16 { NEG = -2, POS = 5 }; enum E24 : int24 { N24 = -2 };", compiled=False)
+                    want2 = _show(fresh.resolve(tname)(data))[0]
+                    ctx.prove(f"{tname}/{form}/follows-a-byte-order-switch", got == want2, info=f"{got} expected {want2} (before the switch: {first[form]})")
+            finally:
+                cs.endian = endian
         ctx.cover("done")
 
 
